@@ -222,3 +222,32 @@ def shrink_candidates(c):
         if c['kind'] == 'stxt' and k in c:
             for i in range(len(c[k])):
                 d = dict(c); d[k] = c[k][:i] + c[k][i + 1:]; yield d
+
+# ---- enc tie: the Coq encoders of the round-trip theorems (Proofs/TextFacts.v) on the same structured cases
+ENC_TIE_IMPORTS = ['Proofs.TextFacts']
+def enc_tie_term(c):
+    from framework import cz, cbytes, clist
+    if c['kind'] == 'stxt':
+        runs = clist([clist([cz(v) for v in (r['u'][0], r['start'], r['u'][1], r['u'][2], r['font'], r['fmt'], r['u7'], r['size'],
+                                              r['rgb'][0], r['lo'][0], r['rgb'][1], r['lo'][1], r['rgb'][2], r['lo'][2])]) for r in c['runs']])
+        return 'enc_stxt %s %s %s %s %s' % (cbytes(c['gap']), cbytes(c['text']), cz(c['fds']), runs, cbytes(c['tail'])), enc(c)
+    if c['kind'] == 'fmap':
+        fonts = c['fonts']
+        nf, cap = len(fonts), c['cap']
+        basic = b'\0' * c['pad']
+        disp = [0] * nf
+        for i in c['order']:
+            disp[i] = len(basic)
+            basic += struct.pack('>i', len(fonts[i][1])) + fonts[i][1]
+        u = c['unk']
+        hv = clist([cz(v) for v in (u[0], u[1], u[2], u[3], nf, cap, u[4], 8, u[6], u[7], u[8], u[9])])
+        slots = []
+        for i in range(cap):
+            if i < nf:
+                vals = (disp[i], c['slotunk'][i], fonts[i][0] if -32768 <= fonts[i][0] < 32768 else 0)
+            else:
+                sp = c['spare'][i - nf]
+                vals = (sp[0], c['slotunk'][i], sp[1])
+            slots.append('Build_slot %s []' % clist([cz(v) for v in vals]))
+        return 'enc_fmap %s %s %s %s' % (hv, clist(slots[:nf]), clist(slots[nf:]), cbytes(basic)), enc(c)
+    return None
